@@ -466,7 +466,7 @@ def run(ctx):
     from symv.hooks import key_collision_hunt
 
     for _, rng in ctx.cases("key-collisions", ctx.budget(16, 160)):
-        r_ = ctx.run_case(key_collision_hunt, ctx, hooks, rng, ctx.n(60000, 300000))
+        r_ = ctx.run_case(key_collision_hunt, ctx, hooks, rng, ctx.n(200000, 600000))
         if r_:
             ctx.evaluated(r_[0])
             ctx.count("m6", "cache-key-lookups", r_[0])
